@@ -281,6 +281,29 @@ def burstOp : List Nat → String × String
       (m, s)
   | _ => bad
 
+/-- `bursts ne nx er window slip size rounds threads per`: `rounds` bursts of `threads × per`
+    requests, each on a stream the table has not seen (the first request of a round installs the
+    entry with count 1). Totals over all rounds. -/
+def burstsOp : List Nat → String × String
+  | [ne, nx, er, w, slip, size, rounds, threads, per] =>
+    match RrlParams.configure ne nx er w slip 24 56 size with
+    | .err e => ("err:" ++ e.toString, "-")
+    | .panic => ("panic", "-")
+    | .ok p =>
+      let e0 : Entry := { key := initialKey, count := 0, last_refill := 0 }
+      let n := threads * per
+      let shw := fun (s sl d : Nat) => if slip ≥ 2 then s!"ok {s} {sl + d}" else s!"ok {s} {sl} {d}"
+      let m := match burstModel p n e0 (0, 0, 0) with
+        | some (_, s, sl, d) => shw (rounds * s) (rounds * sl) (rounds * d)
+        | none => "panic"
+      let cap := ne * w
+      let sent := Spec.Rrl.burstSent n cap
+      let lim := n - sent
+      let s := if slip = 0 then shw (rounds * sent) 0 (rounds * lim) else if slip = 1 then shw (rounds * sent) (rounds * lim) 0
+               else s!"ok {rounds * sent} {rounds * lim}"
+      (m, s)
+  | _ => bad
+
 end RrlDrv
 
 /-- ops of groups `rrl`, `rrlkey`, `rrlburst` -/
@@ -296,6 +319,10 @@ def rrlHandler : Handler := fun op args =>
   | "burst" =>
     match args.mapM natArg with
     | some a => some (RrlDrv.burstOp a)
+    | none => some bad
+  | "bursts" =>
+    match args.mapM natArg with
+    | some a => some (RrlDrv.burstsOp a)
     | none => some bad
   | _ =>
     -- `rrl-discarded-<n>`: bookkeeping line of the harness (histories thrown away because the
